@@ -267,6 +267,9 @@ func (x *Exec) load(s *State, lv *LValue) (*Term, error) {
 		if lv.Base == nil {
 			h := x.heapGet(s, x.fieldKey(lv.STyp, lv.ST, lv.Field), SArr(SInt, x.sortOf(lv.Typ)))
 			x.loadBound = x.boundOf(s, x.fieldKey(lv.STyp, lv.ST, lv.Field))
+			if !x.inSpec {
+				x.checkGuard(s, lv.STyp, lv.ST, lv.Field, lv.Ref, false, x.curSite)
+			}
 			return Select(h, lv.Ref), nil
 		}
 		b, err := x.load(s, lv.Base)
@@ -326,6 +329,7 @@ func (x *Exec) store(s *State, lv *LValue, v *Term) error {
 			x.heapSet(s, key, Store(h, lv.Ref, v))
 			x.noteWrite(s, key, lv.Ref)
 			x.checkInvAfterStore(s, lv.STyp, lv.Ref, x.curSite)
+			x.checkGuard(s, lv.STyp, lv.ST, lv.Field, lv.Ref, true, x.curSite)
 			return nil
 		}
 		b, err := x.load(s, lv.Base)
